@@ -56,7 +56,9 @@ func exec(in string) (out string) {
 }
 
 func exec1(in string, partial *[]string) string {
-	f := strings.Fields(in)
+	// fields are separated by blanks; '_' is accepted too, so that an input can be quoted as one
+	// blank-free word in the FAIL lines of the supporting scripts (bin/incoq-shell, bin/dash-shell)
+	f := strings.FieldsFunc(in, func(r rune) bool { return r == ' ' || r == '_' })
 	switch f[0] {
 	case "S":
 		fs, ok := shell.Split(tr.UnHex(f[1]))
@@ -91,6 +93,7 @@ func exec1(in string, partial *[]string) string {
 }
 
 var classAlpha = []byte{'a', ' ', '\n', '\\', '\'', '"'}
+var wideAlpha = []byte{'a', ' ', '\t', '\n', '\\', '\'', '"', 0x80, 0, ';'}
 var metaAlpha = []byte{'a', ' ', '\'', '"', '\\', '$', '*', '\n', '\t', '#', '~', '=', ';', '`', 0x80, '!', '{', '-', '%', '[', '?', '|', '&', '<', '>', '(', ')', 0xff}
 
 // allStrings calls f on every string over alpha of length 0..maxLen, shortest first (so that the
@@ -127,7 +130,7 @@ func randString(r *tr.Rand, alpha []byte, maxLen int) string {
 func special(s string) bool { return strings.ContainsAny(s, " \t\n\\'\"|&;<>()$`*?[#~=%") }
 
 func main() {
-	tr.Main("C15: every single byte, all strings to length 3 (quick) / 4 (thorough) over a 28-symbol metacharacter alphabet for Quote and Split(Join), random lists of random strings, concurrent calls so pooled buffers are reused; C16: all strings over the six tokenizer classes to length 6 (quick) / 8 (thorough) for Split, scanner sessions under every fragmentation with Rest at every point, random long inputs. A case is non-trivial when its input contains a quoting character, separator or metacharacter; distinct = distinct input lines.",
+	tr.Main("C15: every single byte, all strings to length 3 (quick) / 4 (thorough) over a 28-symbol metacharacter alphabet for Quote and Split(Join), random lists of random strings, concurrent calls so pooled buffers are reused; C16: every byte value alone, inside a word and inside each kind of quoting, all strings to length 3 (quick) / 4 (thorough) over a 10-symbol alphabet with both blanks, NUL and a non-ASCII byte, all strings over the six tokenizer classes to length 6 (quick) / 8 (thorough) for Split, scanner sessions under every fragmentation with Rest at every point, random long inputs. A case is non-trivial when its input contains a quoting character, separator or metacharacter; distinct = distinct input lines.",
 		exec, func(g *tr.G) {
 			switch g.Prop {
 			case "C15":
@@ -181,6 +184,16 @@ func main() {
 				}
 				wg.Wait()
 			case "C16":
+				// every byte value alone and inside a word: the whole byte->class map is exercised
+				for b := 0; b < 256; b++ {
+					c := string([]byte{byte(b)})
+					g.Emit("S "+tr.Hex(c), special(c), "every-byte")
+					g.Emit("S "+tr.Hex("a"+c+"b"), special(c), "every-byte")
+					g.Emit("S "+tr.Hex("\""+c+"\" '"+c+"' \\"+c), true, "every-byte")
+				}
+				allStrings(wideAlpha, g.Scale(3, 4), func(s string) {
+					g.Emit("S "+tr.Hex(s), special(s), "exhaustive-wide")
+				})
 				allStrings(classAlpha, g.Scale(6, 8), func(s string) {
 					g.Emit("S "+tr.Hex(s), special(s), "exhaustive-class")
 				})
